@@ -291,6 +291,18 @@ class Gen:
             self.o.code(";", owners)
         self.trailing()
         self.o.nl()
+        if self.r.random() < 0.06 and ((L == "Java" and in_class and kind == "plain")
+                                       or (L in ("JavaScript", "TypeScript") and not in_class and kind == "function")):
+            # a block that abuts the function body: a Java instance initialiser, a JavaScript block statement (GD27)
+            self.o.ws(indent)
+            self.o.code("{", owners)
+            self.o.nl()
+            for _ in range(self.r.choice([1, 2, 3])):
+                self.simple_stmt(indent + "    ", owners)
+            self.o.ws(indent)
+            self.o.code("}", owners)
+            self.o.nl()
+            self.features.add("abutting-block")
         return fid
 
     def body_len(self):
